@@ -34,6 +34,10 @@ Definition far_at (p : Z) (l : line) (q : Z) (g : list (line * chunk)) : Prop :=
 Definition lands_call (cmp : bool) (consts labels : envt) (p : Z) (l : line) (L : string) (g : list (line * chunk)) : Prop :=
   exists q, chain_get consts labels L = Some q /\ (lands_at cmp p l "jal" q g \/ far_at p l q g).
 
+(* an explicitly written compressed transfer: two bytes in BOTH modes *)
+Definition lands_c (consts labels : envt) (p : Z) (l : line) (L m : string) (g : list (line * chunk)) : Prop :=
+  exists q, chain_get consts labels L = Some q /\ exists h, g = [(l, CBytes (le_bytes 2 h))] /\ lands16 m h (q - p).
+
 Lemma branch_decodes_name name a b z w :
   In name branch_names -> encode name [a; b; AInt z] [] = Ok w ->
   exists c r1 r2, decode32 w = Some (Branch c r1 r2 z) /\ bcond_name c = name.
@@ -129,6 +133,16 @@ Proof.
     unfold lands16. change (String.eqb "jal" "jal") with true. cbv iota.
     destruct (cj_decodes _ _ _ Hn Hw) as (ci & A & B). eauto 8.
 Qed.
+Lemma xferC_lands consts labels p l L m it g :
+  xferC L m it -> Rfin consts labels p (l, it) g -> lands_c consts labels p l L m g.
+Proof.
+  intros Hx Hf. destruct (xferI_lands true _ _ _ _ _ _ _ _ (xferC_I _ _ _ Hx) Hf) as (q & Hq & [(w & Hg & _)|(_ & h & Hg & Hl)]).
+  - exfalso. unfold Rfin in Hf. cbn [fst snd] in Hf. assert (Hn : is_label it = None) by (destruct Hx; reflexivity).
+    rewrite Hn in Hf. destruct Hf as (c & Hg' & Hc & _). rewrite Hg in Hg'. inversion Hg'; subst c.
+    assert (Hz : isz it = 2) by (destruct Hx; reflexivity). rewrite Hz in Hc.
+    vm_compute in Hc. discriminate.
+  - exists q. split; [exact Hq|]. exists h. split; assumption.
+Qed.
 
 Lemma xferI_instr L c m it : xferI L c m it -> codelike it.
 Proof. intro H; destruct H; exact I. Qed.
@@ -186,17 +200,22 @@ Proof.
   rewrite <- Zplus_mod_idemp_r, hi_lo_rebuild, Zplus_mod_idemp_r. f_equal. ring.
 Qed.
 
+Lemma xferC_instr L m it : xferC L m it -> codelike it. Proof. intro H; destruct H; exact I. Qed.
 Lemma Rit_code cmp consts labels p l it h :
   codelike it -> Rit cmp consts labels p (l, it) h ->
   Forall (fun c : line * chunk => fst c = l) h /\
   (forall L m, xfer L cmp m it -> lands cmp consts labels p l L m h) /\
+  (forall L m, xferC L m it -> lands_c consts labels p l L m h) /\
   (forall L, xcall L it -> lands_call cmp consts labels p l L h).
 Proof.
-  intros Hc (g & (K & _ & T1 & T2) & P). split; [|split].
+  intros Hc (g & (K & _ & T1 & T2) & P). split; [|split; [|split]].
   - eapply code_chunks; [|exact P]. unfold Rkeep in K. cbn [snd fst] in K. destruct it; try contradiction; exact K.
-  - intros L m Hx. destruct (T1 L m Hx) as (it' & -> & Hx'). cbn [fst Q4] in *. apply pg_single in P.
+  - intros L m Hx. destruct (T1 (IT L m) I Hx) as (it' & -> & Hx'). cbn [fst Q4] in *. apply pg_single in P.
     destruct (codelike_plain _ (xferI_instr _ _ _ _ Hx')) as [N1 N2]. apply Ral_plain in P; auto.
     eapply xferI_lands; eauto.
+  - intros L m Hx. destruct (T1 (IX L m) I Hx) as (it' & -> & Hx'). cbn [fst Q4] in *. apply pg_single in P.
+    destruct (codelike_plain _ (xferC_instr _ _ _ Hx')) as [N1 N2]. apply Ral_plain in P; auto.
+    eapply xferC_lands; eauto.
   - intros L Hx. destruct (T2 L Hx) as [(it' & -> & Hx')|(d & s & i1 & i2 & -> & H1 & H2)]; cbn [fst Q4] in *.
     + apply pg_single in P. destruct (codelike_plain _ (xferI_instr _ _ _ _ Hx')) as [N1 N2]. apply Ral_plain in P; auto.
       destruct (xferI_lands _ _ _ _ _ _ _ _ _ Hx' P) as (q & Hq & Hat). exists q. split; [exact Hq|left; exact Hat].
@@ -207,6 +226,7 @@ Definition line_lands (cmp : bool) (r : result) (p : Z) (lt : line * string) (g 
   match front_line (fst lt) (snd lt) with
   | FOk (Some it) =>
       (forall L m, xfer L cmp m it -> lands cmp (r_consts r) (r_labels r) p (fst lt) L m g) /\
+      (forall L m, xferC L m it -> lands_c (r_consts r) (r_labels r) p (fst lt) L m g) /\
       (forall L, xcall L it -> lands_call cmp (r_consts r) (r_labels r) p (fst lt) L g)
   | _ => True
   end.
@@ -219,12 +239,14 @@ Proof.
   destruct lt as [l text]. intros (g1 & H1 & P1). unfold R1 in H1. unfold line_lands. cbn [fst snd] in *.
   destruct (front_line l text) as [[it|]| |] eqn:E; try exact I.
   assert (Hk : codelike it -> (forall L m, xfer L cmp m it -> lands cmp (r_consts r) (r_labels r) p l L m g) /\
+                              (forall L m, xferC L m it -> lands_c (r_consts r) (r_labels r) p l L m g) /\
                               (forall L, xcall L it -> lands_call cmp (r_consts r) (r_labels r) p l L g)).
   { intro Hc. assert (En : not_const (l, it) = true) by (destruct it; try contradiction; reflexivity).
     rewrite En in H1. subst g1. apply pg_single in P1. exact (proj2 (Rit_code _ _ _ _ _ _ _ Hc P1)). }
-  split.
+  split; [|split].
   - intros L m Hx. exact (proj1 (Hk (xfer_code _ _ _ _ Hx)) L m Hx).
-  - intros L Hx. exact (proj2 (Hk (xcall_code _ _ Hx)) L Hx).
+  - intros L m Hx. exact (proj1 (proj2 (Hk (xferC_instr _ _ _ Hx))) L m Hx).
+  - intros L Hx. exact (proj2 (proj2 (Hk (xcall_code _ _ Hx))) L Hx).
 Qed.
 
 (* ---- which lines are transfers to a label, in terms of their TOKENS ---------------------------------------------------------------- *)
@@ -447,7 +469,7 @@ Proof.
   destruct (pg_middle _ _ _ _ _ _ _ G) as (c1 & g & c2 & Hc & G1 & Hl & G2).
   destruct (call_line l text ts L Hx Ht) as (it & Hf & Hcode & Hxf).
   apply Rtx_line_lands in Hl. unfold line_lands in Hl. cbn [fst snd] in Hl. rewrite Hf in Hl. rewrite Z.add_0_l in *.
-  destruct (proj2 Hl L Hxf) as (q & Hq & Hat). exists c1, g, c2, q.
+  destruct (proj2 (proj2 Hl) L Hxf) as (q & Hq & Hat). exists c1, g, c2, q.
   split; [exact Hc|]. split; [eapply raw_layout; exact G1|]. split; [eapply raw_layout; exact G2|]. split; assumption.
 Qed.
 Theorem text_call_lands ls c0 l0 cmp r :
@@ -468,6 +490,106 @@ Proof.
   exists cs1, g, cs2, ca, cb. repeat split; auto.
 Qed.
 
+(* ---- explicitly written compressed transfers (D28: since the repair of parse_item a single operand token that is no integer literal
+   is a reference, as for jal / beq) ------------------------------------------------------------------------------------------------- *)
+Lemma offset_imm L l : String.eqb L "(" = false -> parse_immediate ["%offset"; L] l = FOk (EOff L).
+Proof.
+  intro H2. unfold parse_immediate. cbn [List.length parse_immediate_f].
+  change (lower "%offset") with "%offset". cbn [nth_tok nth_error tok_is]. rewrite H2. vm_compute. reflexivity.
+Qed.
+Inductive ctransfer_tokens : list string -> string -> string -> Prop :=
+| ct_cj t0 L : In (lower t0) ["c.j"; "c.jal"]%string -> is_int L = false -> L <> "("%string ->
+    ctransfer_tokens [t0; L] L "jal"                                           (* c.j L / c.jal L *)
+| ct_cb t0 rs L m : In (lower t0, m) [("c.beqz", "beq"); ("c.bnez", "bne")]%string -> rs <> "="%string -> is_int L = false -> L <> "("%string ->
+    ctransfer_tokens [t0; rs; L] L m.                                          (* c.beqz rs, L / c.bnez rs, L *)
+Lemma ctransfer_tokens_xferC l ts L m : ctransfer_tokens ts L m ->
+  exists it, parse_item l ts = FOk it /\ xferC L m it.
+Proof.
+  intro H. destruct H as [t0 L Hn Hi Hp|t0 rs L m Hn Hr Hi Hp].
+  - simpl in Hn.
+    repeat (destruct Hn as [Hn|Hn]; [symmetry in Hn; eexists; split;
+      [nav1 Hn; unfold cref_imm; rewrite Hi; rewrite (offset_imm L l (neq_eqb _ _ Hp)); reflexivity|]; constructor; simpl; tauto|]).
+    contradiction.
+  - pose proof (neq_eqb _ _ Hr) as Hr'. simpl in Hn.
+    repeat (destruct Hn as [Hn|Hn]; [inversion Hn as [[Hl Hm]]; symmetry in Hl; eexists; split;
+      [nav2 Hl Hr'; cbn [orb]; cbv beta iota zeta; unfold cref_imm; rewrite Hi; rewrite (offset_imm L l (neq_eqb _ _ Hp)); reflexivity|];
+      constructor; simpl; tauto|]).
+    contradiction.
+Qed.
+Theorem text_ctransfer ls c0 l0 cmp r :
+  assemble_text ls c0 l0 cmp = TDone r ->
+  forall ls1 l text ls2 ts L m, ls = ls1 ++ (l, text) :: ls2 -> lex_tokens text = Some ts -> ctransfer_tokens ts L m ->
+    exists cs1 g cs2 q, r_chunks r = cs1 ++ g ++ cs2 /\ text_layout r 0 ls1 cs1 /\
+      text_layout r (tot csz cs1 + tot csz g) ls2 cs2 /\
+      chain_get (r_consts r) (r_labels r) L = Some q /\
+      exists h, g = [(l, CBytes (le_bytes 2 h))] /\ lands16 m h (q - tot csz cs1).
+Proof.
+  intros H ls1 l text ls2 ts L m -> Hx Ht. pose proof (text_raw _ _ _ _ _ H) as G.
+  destruct (pg_middle _ _ _ _ _ _ _ G) as (c1 & g & c2 & Hc & G1 & Hl & G2).
+  destruct (ctransfer_tokens_xferC l ts L m Ht) as (it & Hp & Hxf).
+  assert (Hf : front_line l text = FOk (Some it)).
+  { destruct ts as [|t ts]; [inversion Ht|]. rewrite (front_line_tokens_some l text t ts Hx), Hp. reflexivity. }
+  apply Rtx_line_lands in Hl. unfold line_lands in Hl. cbn [fst snd] in Hl. rewrite Hf in Hl. rewrite Z.add_0_l in *.
+  destruct (proj1 (proj2 Hl) L m Hxf) as (q & Hq & Hat). exists c1, g, c2, q.
+  split; [exact Hc|]. split; [eapply raw_layout; exact G1|]. split; [eapply raw_layout; exact G2|]. split; assumption.
+Qed.
+Theorem text_ctransfer_to_label ls c0 l0 cmp r :
+  assemble_text ls c0 l0 cmp = TDone r ->
+  forall ls1 l text ls2 ts L m la l' text' lb,
+    ls = ls1 ++ (l, text) :: ls2 -> lex_tokens text = Some ts -> ctransfer_tokens ts L m ->
+    assoc_str L (r_consts r) = None ->
+    ls = la ++ (l', text') :: lb -> front_line l' text' = FOk (Some (ILabel L)) ->
+    exists cs1 g cs2 ca cb,
+      r_chunks r = cs1 ++ g ++ cs2 /\ text_layout r 0 ls1 cs1 /\
+      r_chunks r = ca ++ cb /\ text_layout r 0 la ca /\
+      exists h, g = [(l, CBytes (le_bytes 2 h))] /\ lands16 m h (tot csz ca - tot csz cs1).
+Proof.
+  intros H ls1 l text ls2 ts L m la l' text' lb E1 Hx Ht Hc E2 Hf.
+  destruct (text_ctransfer _ _ _ _ _ H _ _ _ _ _ _ _ E1 Hx Ht) as (cs1 & g & cs2 & q & A1 & A2 & A3 & A4 & A5).
+  destruct (proj2 (text_labels _ _ _ _ _ H) _ _ _ _ _ E2 Hf) as (ca & cb & B1 & B2 & B3 & B4).
+  unfold chain_get in A4. rewrite Hc, B4 in A4. inversion A4; subst q.
+  exists cs1, g, cs2, ca, cb. repeat split; auto.
+Qed.
+(* the two readable special cases *)
+Theorem text_cb_lands ls c0 l0 cmp r :
+  assemble_text ls c0 l0 cmp = TDone r ->
+  forall ls1 l text ls2 ts L m la l' text' lb,
+    ls = ls1 ++ (l, text) :: ls2 -> lex_tokens text = Some ts -> ctransfer_tokens ts L m -> m <> "jal"%string ->
+    assoc_str L (r_consts r) = None ->
+    ls = la ++ (l', text') :: lb -> front_line l' text' = FOk (Some (ILabel L)) ->
+    exists cs1 g cs2 ca cb,
+      r_chunks r = cs1 ++ g ++ cs2 /\ text_layout r 0 ls1 cs1 /\
+      r_chunks r = ca ++ cb /\ text_layout r 0 la ca /\
+      let p := tot csz cs1 in let q := tot csz ca in
+      exists h ci c r1, g = [(l, CBytes (le_bytes 2 h))] /\ decode16 h = Some ci /\ expand_c ci = Branch c r1 0 (q - p) /\ bcond_name c = m.
+Proof.
+  intros H ls1 l text ls2 ts L m la l' text' lb E1 Hx Ht Hm Hc E2 Hf.
+  destruct (text_ctransfer_to_label _ _ _ _ _ H _ _ _ _ _ _ _ _ _ _ _ E1 Hx Ht Hc E2 Hf) as (cs1 & g & cs2 & ca & cb & A1 & A2 & A3 & A4 & h & A5 & A6).
+  exists cs1, g, cs2, ca, cb. repeat split; auto. cbv zeta.
+  assert (Em : String.eqb m "jal" = false).
+  { destruct Ht as [t0 L Hn Hi Hp|t0 rs L m Hn Hr Hi Hp]; [congruence|]. simpl in Hn.
+    repeat (destruct Hn as [Hn|Hn]; [inversion Hn; reflexivity|]). contradiction. }
+  unfold lands16 in A6. destruct A6 as (ci & Hd & Hh). rewrite Em in Hh. destruct Hh as (c & r1 & He & Hn). exists h, ci, c, r1. auto.
+Qed.
+Theorem text_cj_lands ls c0 l0 cmp r :
+  assemble_text ls c0 l0 cmp = TDone r ->
+  forall ls1 l text ls2 ts L la l' text' lb,
+    ls = ls1 ++ (l, text) :: ls2 -> lex_tokens text = Some ts -> ctransfer_tokens ts L "jal" ->
+    assoc_str L (r_consts r) = None ->
+    ls = la ++ (l', text') :: lb -> front_line l' text' = FOk (Some (ILabel L)) ->
+    exists cs1 g cs2 ca cb,
+      r_chunks r = cs1 ++ g ++ cs2 /\ text_layout r 0 ls1 cs1 /\
+      r_chunks r = ca ++ cb /\ text_layout r 0 la ca /\
+      let p := tot csz cs1 in let q := tot csz ca in
+      exists h ci rd, g = [(l, CBytes (le_bytes 2 h))] /\ decode16 h = Some ci /\ expand_c ci = Jal rd (q - p).
+Proof.
+  intros H ls1 l text ls2 ts L la l' text' lb E1 Hx Ht Hc E2 Hf.
+  destruct (text_ctransfer_to_label _ _ _ _ _ H _ _ _ _ _ _ _ _ _ _ _ E1 Hx Ht Hc E2 Hf) as (cs1 & g & cs2 & ca & cb & A1 & A2 & A3 & A4 & h & A5 & A6).
+  exists cs1, g, cs2, ca, cb. repeat split; auto. cbv zeta.
+  unfold lands16 in A6. destruct A6 as (ci & Hd & Hh). change (String.eqb "jal" "jal") with true in Hh. cbv iota in Hh.
+  destruct Hh as (rd & He). exists h, ci, rd. auto.
+Qed.
+
 (* a text with a near and a far call: start: / call far / tail start / (a gap of 2 MiB) / far: *)
 Definition ex_call : list (line * string) :=
   [(exT 1, "start:"); (exT 2, "    call far"); (exT 3, "    tail start"); (exT 4, "    align 2097152"); (exT 5, "far:"); (exT 6, "    call start")]%string.
@@ -475,16 +597,18 @@ Lemma ex_call_runs : forall cmp, exists r, assemble_text ex_call [] [] cmp = TDo
   r_labels r = [("start", 0); ("far", 2097152)]%string /\ r_consts r = [].
 Proof. intro cmp. destruct cmp; eexists; (split; [vm_compute; reflexivity|split; reflexivity]). Qed.
 
-(* ---- two texts on which a transfer does NOT land on the label line of that name ------------------------------------------------------ *)
-(* (a) an explicitly written compressed jump / branch with a bare label: the parser hands the operand of c.j / c.jal / c.beqz / c.bnez
-   to parse_immediate, not to the reference logic of jal / beq, so the ABSOLUTE value of the label is used as the pc-relative offset *)
+(* ---- explicit compressed transfers with a bare label: land on it since the repair of D28 (before it the parser handed the operand of
+   c.j / c.jal / c.beqz / c.bnez to parse_immediate as it was, so the ABSOLUTE value of the label was used as the pc-relative offset:
+   the c.j below carried +4, the c.beqz +4) -------------------------------------------------------------------------------------------- *)
 Definition ex_cj : list (line * string) :=
   [(exT 1, "    addi x0, x0, 0"); (exT 2, "loop:"); (exT 3, "    c.j loop"); (exT 4, "    c.beqz x8, loop")]%string.
-Lemma ex_cj_runs : assemble_text ex_cj [] [] false =
-  TDone {| r_chunks := [(exT 1, CBytes [19; 0; 0; 0]); (exT 3, CBytes [17; 160]); (exT 4, CBytes [17; 192])];
-           r_consts := []; r_labels := [("loop", 4)]%string |}.
-Proof. vm_compute; reflexivity. Qed.
-(* (b) a constant with the name of a label shadows it in ChainMap(constants, labels) *)
+Lemma ex_cj_runs : forall cmp, exists r, assemble_text ex_cj [] [] cmp = TDone r /\
+  r_labels r = [("loop", if cmp then 2 else 4)]%string /\ r_consts r = [] /\
+  r_chunks r = [(exT 1, CBytes (if cmp then [1; 0] else [19; 0; 0; 0])); (exT 3, CBytes (le_bytes 2 (1 + 160 * 256)));
+                (exT 4, CBytes (le_bytes 2 (125 + 220 * 256)))].
+Proof. intro cmp. destruct cmp; eexists; (split; [vm_compute; reflexivity|repeat split; reflexivity]). Qed.
+(* ---- a text on which a transfer does NOT land on the label line of that name --------------------------------------------------------- *)
+(* a constant with the name of a label shadows it in ChainMap(constants, labels) *)
 Definition ex_shadow : list (line * string) := [(exT 1, "L = 100"); (exT 2, "L:"); (exT 3, "    j L")]%string.
 Lemma ex_shadow_runs : assemble_text ex_shadow [] [] false =
   TDone {| r_chunks := [(exT 3, CBytes [111; 0; 64; 6])]; r_consts := [("L", 100)]%string; r_labels := [("L", 0)]%string |}.
